@@ -371,6 +371,9 @@ func init() {
 	def(WSafeDetails, KindInfo{Slots: "S", Name: "errors.WithSafeDetails", Arity: Wrap, Groups: GLib | GAnnot, Args: true,
 		build: func(n *Node, k, hid []error) error {
 			f, a := fmtArgs(n.S[0], n.A, hid)
+			if n.S[0].V == "" && len(a) > 0 {
+				f = ""
+			}
 			return errors.WithSafeDetails(k[0], f, a...)
 		}})
 	def(WTelemetry, KindInfo{Slots: "SS", Name: "errors.WithTelemetry", Arity: Wrap, Groups: GLib | GAnnot,
